@@ -5,6 +5,7 @@ package props
 import (
 	"context"
 	"fmt"
+	"math"
 	"sort"
 	"strings"
 	"testing"
@@ -58,12 +59,34 @@ func nearCollidingUniverse(t *rapid.T, n int) []model.TripleSpec {
 		{N: &s1}, {N: &s2}, {N: &s3},
 		{P: &pi}, {P: &pt}, {P: &ptz},
 	}
+	// int64 values that agree in their low or in their high varint bytes
+	for _, i := range []int64{1 << 56, 1 << 62, 3 << 55, -(1 << 55), 1<<55 + 1, 1<<56 + 1, math.MaxInt64, math.MinInt64, 2, 257} {
+		objs = append(objs, model.ObjSpec{L: &model.LitSpec{Kind: "int64", I: i}})
+	}
 	subj := []model.NodeSpec{s1, s2, s3}
 	preds := []model.PredSpec{pi, pt, ptz, pt1, q}
 	var u []model.TripleSpec
 	for len(u) < n {
-		if rapid.IntRange(0, 9).Draw(t, "free") == 0 {
+		switch k := rapid.IntRange(0, 9).Draw(t, "free"); {
+		case k == 0:
 			u = append(u, gen.Triple(false).Draw(t, "free-triple"))
+			continue
+		case k <= 4 && len(u) > 0:
+			// a sibling of an earlier member: two components kept, the third from the same family
+			sib := u[rapid.IntRange(0, len(u)-1).Draw(t, "sib-of")]
+			switch rapid.IntRange(0, 3).Draw(t, "sib-part") {
+			case 0:
+				sib.S = rapid.SampledFrom(subj).Draw(t, "s")
+			case 1:
+				sib.P = rapid.SampledFrom(preds).Draw(t, "p")
+			default:
+				o := rapid.SampledFrom(objs).Draw(t, "o")
+				if sib.O.L != nil && sib.O.L.Kind == "int64" {
+					o = rapid.SampledFrom(objs[len(objs)-12:]).Draw(t, "oi") // another big int
+				}
+				sib.O = o
+			}
+			u = append(u, sib)
 			continue
 		}
 		u = append(u, model.TripleSpec{
